@@ -270,6 +270,9 @@ class LSMTree(Entity):
         self._total_sstables_checked: int = 0
         self._total_bloom_saves: int = 0
 
+        # A compaction is in flight (between its merge and its install)
+        self._compacting: bool = False
+
     def downstream_entities(self) -> list[Entity]:
         if self._wal is not None:
             return [self._wal]
@@ -562,6 +565,12 @@ class LSMTree(Entity):
 
     def _compact(self) -> Generator[float]:
         """Run a compaction cycle."""
+        # Compactions are exclusive: a second one started during the write
+        # latency of the first would merge SSTables the first is about to
+        # replace (and may drop tombstones the first one's output still needs).
+        # The skipped trigger is re-evaluated after the next flush.
+        if self._compacting:
+            return
         source_level, sstables = self._compaction_strategy.select_compaction(self._levels)
         if not sstables:
             return
@@ -594,7 +603,9 @@ class LSMTree(Entity):
 
             # Write latency
             pages = max(1, new_sst.key_count // 16)
+            self._compacting = True
             yield pages * self._sstable_write_latency
+            self._compacting = False
 
             # Remove old SSTables and add new one
             for sst in sstables:
